@@ -236,40 +236,33 @@ theorem releaseEntry_full {s s' : State} {k : Nat} {r : WaitResult} (hinv : GInv
     have g := release_gstep hg0 h
     exact ⟨g.inv, g.deliver⟩
 
-/-- The `claimed_twice` branch of `release_self` (hand the key back to its transfer target, wake the
-    threads that started waiting meanwhile): a graph step up to the sync table. -/
-theorem releaseSelf_handback_gstep {s s' : State} {k : Nat} {st st' : SyncState} (hinv : GInv s [])
-    (h : (if st.anyoneWaiting = true then
-            unblockRuntimesBlockedOn { s with sync := upd s.sync k (some st') } k .completed
-          else some { s with sync := upd s.sync k (some st') }) = some s') :
+/-- The `claimed_twice` branch of `release_self` (hand the key back to its transfer target and — unless
+    the releasing thread owns that target — wake the threads that started waiting meanwhile): a graph
+    step up to the sync table. -/
+theorem releaseSelf_handback_gstep {s s' : State} {t k : Nat} {st : SyncState} (hinv : GInv s [])
+    (hk : s.sync k = some st) (hct : st.claimedTwice = true) (h : releaseSelf s t k = some s') :
     GInv s' [] ∧ Deliver s s' ∧ s'.bound = s.bound ∧ s'.transferred = s.transferred ∧
       s'.tdeps = s.tdeps := by
-  have hg0 : GInv { s with sync := upd s.sync k (some st') } [] := GInv.congr (s := s) rfl rfl rfl hinv
-  cases haw : st.anyoneWaiting with
-  | false =>
-    simp only [haw, Bool.false_eq_true, if_false, Option.some.injEq] at h
-    subst h
-    exact ⟨hg0, Deliver.of_eq rfl rfl, rfl, rfl, rfl⟩
-  | true =>
-    simp only [haw, if_true] at h
+  rcases releaseSelf_handback_cases hk hct h with ⟨_, rfl⟩ | ⟨_, _, h⟩
+  · exact ⟨GInv.congr (s := s) rfl rfl rfl hinv, Deliver.of_eq rfl rfl, rfl, rfl, rfl⟩
+  · have hg0 : GInv { s with sync := upd s.sync k (some (handedBack st false)) } [] :=
+      GInv.congr (s := s) rfl rfl rfl hinv
     have g := unblockRuntimesBlockedOn_gstep hg0 h
     have e := (unblockRuntimesBlockedOn_inv hg0 h).2.same
     exact ⟨g.inv, g.deliver, g.bound, e.transferred, e.tdeps⟩
 
-theorem releaseSelf_full {s s' : State} {k : Nat} (hinv : GInv s [])
-    (h : releaseSelf s k = some s') : GInv s' [] ∧ Deliver s s' := by
-  unfold releaseSelf at h
+theorem releaseSelf_full {s s' : State} {t k : Nat} (hinv : GInv s [])
+    (h : releaseSelf s t k = some s') : GInv s' [] ∧ Deliver s s' := by
   cases hk : s.sync k with
-  | none => simp [hk] at h
+  | none => simp [releaseSelf, hk] at h
   | some st =>
-    simp only [hk] at h
     cases hct : st.claimedTwice with
     | true =>
-      simp only [hct, if_true] at h
-      have g := releaseSelf_handback_gstep hinv h
+      have g := releaseSelf_handback_gstep hinv hk hct h
       exact ⟨g.1, g.2.1⟩
     | false =>
-      simp only [hct, Bool.false_eq_true, if_false] at h
+      unfold releaseSelf at h
+      simp only [hk, hct, Bool.false_eq_true, if_false] at h
       have hg0 : GInv { s with sync := upd s.sync k none } [] := GInv.congr (s := s) rfl rfl rfl hinv
       have g := release_gstep hg0 h
       exact ⟨g.inv, g.deliver⟩
